@@ -90,6 +90,8 @@ def run(P, C, tier):
     C.rule("R3", "rows absent locally are always fetched; the comparison is made against the stored row with the same id")
     C.rule("R5", "in the history comparison every remote (day, entity) whose daily hash differs from the local one, or that is unknown locally, is exchanged: the only way to skip synchronise_day is the equal-hash edge")
     C.rule("R6", "the previous-version fields carried with a selected row (old_mdate, old_room_id, old_verifying_key, old_local_id, old_entity) all describe the STORED row")
+    C.rule("R7", "replaying a day's deletion records is harmless (a day is re-applied whole whenever its hash differs): a record removes exactly the row/reference version it names "
+                 "(a reference by src, entity, label, dest and creation date: one re-created later is not removed), and it is stored and marked on every path, so every member ends with the same deletion records")
     C.rule("R4", "the version that is stored is the version that won the comparison: the fetched row's (mdate, signature) is checked against the stored version (or the advertised identifier) before it replaces it")
     try:
         b = P.body("node::Node::filter_existing")
@@ -270,3 +272,38 @@ def run(P, C, tier):
                     C.ob("R6", "previous-version:" + k, got == w, "%s:%d" % (b.file, st["at"][0]),
                          "%s := %s (the stored row's %s is %s): the lower bound of the reference exchange, the day to recompute, and the rights evaluation use it" % (k, got, k, w))
     C.floor("R6", "NodeToInsert literal for an existing row", n, 1)
+    # ---- R7 (shared with C11-R3)
+    from rules import c11
+    c11.apply_deletions(P, C, "R7")
+    # ---- R8
+    r8_room_summary(P, C)
+
+
+def r8_room_summary(P, C):
+    import sql
+    C.rule("R8", "the room summary two peers compare before they skip the history exchange (RoomDefinitionLog: last date, daily hash, history hash) covers EVERY entity "
+                 "of the room: _daily_log has one row per (room, entity, date), so a summary built from a single row of a statement that is not constrained to one "
+                 "entity hides the changes of all other entities (a room with two entities never converges)")
+    try:
+        b = P.body("daily_log::RoomDefinitionLog::get")
+        C.saw(b)
+        n = 0
+        for bi, callee, text, holes, term in sql.statements(b):
+            if not text or "_daily_log" not in text:
+                continue
+            n += 1
+            tx = sql.norm(text)
+            one_entity = re.search(r"\bentity\s*=\s*\?", tx) is not None
+            nexts = []
+            for nb, nt in b.calls_to(r"Rows.*::next$"):
+                recv = b.call_args(nb, expand_vars=True)[0]
+                pc = mir.has_call(recv, r"::prepare(_cached)?$")
+                if pc is not None and pc[3] == bi:
+                    nexts.append(nb)
+            looped = bool(nexts) and all(nb in b.reach_after(nb) for nb in nexts)
+            C.ob("R8", "room-summary-covers-every-entity#%d" % (n - 1), one_entity or looped, b.loc(bi),
+                 "statement over _daily_log %s; its rows are %s" % ("constrained to one entity" if one_entity else "returns a row per entity",
+                                                                    "all consumed in a loop" if looped else "read ONCE (only the first entity's hashes are advertised and compared)"))
+        C.floor("R8", "statements over _daily_log in RoomDefinitionLog::get", n, 1)
+    except mir.MissingAnchor as e:
+        C.anchor_missing("R8", "RoomDefinitionLog::get", e)
